@@ -581,3 +581,31 @@ def c20_9(ctx, r):
     r.check(bool(cl) and not rm, "close_event_logging closes the handlers and leaves them attached", key_of(ce, "event handler detached"), ce.loc(rm[0]) if rm else ce.loc(),
             "close_event_logging detaches the event log handler: in a process that goes on logging events afterwards (local mode: the submitter's completion events follow the runner's aggregation) "
             "every later event is dropped silently", "Every structured event written by any JADE process of a submission appears exactly once")
+
+
+@rule(P, "C20.10", "T2", "the submitter logs its completion events before the reports consolidate the event files", min_obligations=2)
+def c20_10(ctx, r):
+    """generate_reports() runs `jade show-events` / `jade stats ...`, whose EventsSummary consolidates the *.log event files once and caches the
+    result (events.json); an event logged by the completing submitter after that call is in its log file but in no summary, so
+    list_events()/get_bytes_consumed() silently miss it.  Decided on the CFG of _handle_completion: no log_event() call is reachable from the
+    generate_reports() call."""
+    from ..lib import reachable_from
+
+    fn = ctx.fn("JobSubmitter._handle_completion", "C20.10")
+    gens = [n for s in ctx.sites(fn, short="JobSubmitter.generate_reports") for n in ctx.nodes_of(fn, s.node)]
+    logs = [(c, n) for c in iter_own(fn.node) if isinstance(c, ast.Call) and ctx.src(c.func).split(".")[-1] == "log_event" for n in ctx.nodes_of(fn, c)]
+    if not gens or len(logs) < 2:
+        raise AnalysisError("C20.10", f"{len(gens)} generate_reports calls and {len(logs)} log_event calls in _handle_completion")
+    after = set()
+    for g in gens:
+        after |= set(reachable_from(ctx, fn, g, kinds=NORMAL_KINDS))
+    for c, n in logs:
+        arg = ctx.src(c.args[0]) if c.args else ""
+        what = ""
+        if c.args and isinstance(c.args[0], ast.Name):
+            g = ctx.guards(fn).expand(c.args[0], n)
+            names = [ctx.src(k.value) for k in getattr(g, "keywords", []) if k.arg == "name"]
+            what = names[0] if names else arg
+        r.check(n.id not in after, f"log_event({what or arg}) precedes generate_reports", key_of(fn, f"event {what or arg} logged after the reports"), fn.loc(c),
+                f"the submitter logs the event `{what or arg}` after generate_reports() has consolidated the event files: it never reaches the events summary the reports and `jade show-events` read",
+                "every structured event ... appears in the consolidated summary exactly once")
